@@ -4,15 +4,17 @@
     = util.SplitPath / util.PathStringToElements, ygot.extractKV, addKey,
     elemToString (ygot v0.29.20, ygot/pathstrings.go and util/path.go).
 
-    Strings are byte strings.  The Go code ranges over RUNES and re-encodes
-    them; on valid UTF-8 that is the same as working on bytes (every special
-    character is ASCII and never occurs inside a multi-byte sequence), on
-    invalid UTF-8 the Go code replaces each offending byte by U+FFFD.  The
-    byte-level model is therefore compared with the implementation only on
-    valid UTF-8 input ([utf8_valid], checked inside Coq by C19Check).
+    Strings are byte strings.  The ygot loops range over RUNES and write them
+    back with WriteRune: a byte that does not start a valid encoding becomes
+    U+FFFD.  Every character the loops test for is ASCII and every byte of a
+    multi-byte encoding takes the default branch (append, clear the escape
+    flag), so "loop over the runes of s" is exactly "loop over the bytes of
+    [sanitize s]" (Value/Utf8.v).  The loops below are written over bytes and
+    the entry points apply them to [sanitize s]; on valid UTF-8 [sanitize] is
+    the identity (Utf8Proofs.sanitize_valid).
 
     Definitions only, evaluable by vm_compute. *)
-From Gnmi Require Export Base.Prelude Path.PathModel.
+From Gnmi Require Export Base.Prelude Path.PathModel Value.Utf8.
 Open Scope string_scope.
 
 Definition ch_slash : ascii := "/"%char.
@@ -66,19 +68,33 @@ Fixpoint ends_with (c : ascii) (s : string) : bool :=
 
 Definition str_empty (s : string) : bool := match s with EmptyString => true | _ => false end.
 
-Definition split_path (p : string) : list string :=
+(** the end of SplitPath: [n] is len(path) and [last_slash] whether its last
+    rune is '/', both of the string as given (before any re-encoding) *)
+Definition split_path_gen (n : nat) (last_slash : bool) (p : string) : list string :=
   let '(parts, buf) := split_go p [] "" false false in
-  if negb (str_empty buf) || (negb (Nat.eqb (String.length p) 1) && ends_with ch_slash p)
+  if negb (str_empty buf) || (negb (Nat.eqb n 1) && last_slash)
   then (parts ++ [buf])%list else parts.
 
-(** util.PathStringToElements *)
-Definition path_string_to_elements (p : string) : list string :=
-  let parts := split_path p in
+(** util.PathStringToElements after SplitPath: drop a leading empty part, drop
+    the last part when the string ends in '/' *)
+Definition elements_gen (last_slash : bool) (parts : list string) : list string :=
   let parts := match parts with "" :: r => r | _ => parts end in
   match parts with
   | [] => []
-  | _ :: _ => if ends_with ch_slash p then removelast parts else parts
+  | _ :: _ => if last_slash then removelast parts else parts
   end.
+
+(** byte-level reading (what the Go code does on valid UTF-8) *)
+Definition split_path (p : string) : list string :=
+  split_path_gen (String.length p) (ends_with ch_slash p) p.
+
+Definition path_string_to_elements (p : string) : list string :=
+  elements_gen (ends_with ch_slash p) (split_path p).
+
+(** the Go code on arbitrary bytes: the loop sees the re-encoded runes *)
+Definition go_path_string_to_elements (p : string) : list string :=
+  elements_gen (ends_with ch_slash p)
+    (split_path_gen (String.length p) (ends_with ch_slash p) (sanitize p)).
 
 (** ygot.extractKV *)
 Record kvst := KV {
@@ -129,7 +145,7 @@ Fixpoint kv_run (s : string) (st : kvst) : option kvst :=
   | String c r => match kv_step st c with Some st' => kv_run r st' | None => None end
   end.
 
-Definition extract_kv (s : string) : option (string * list (string * string)) :=
+Definition extract_kv_bytes (s : string) : option (string * list (string * string)) :=
   match kv_run s (KV false false false "" "" "" []) with
   | None => None
   | Some st =>
@@ -140,6 +156,10 @@ Definition extract_kv (s : string) : option (string * list (string * string)) :=
       | [] => if contains_char ch_space name then None else Some (name, [])
       end
   end.
+
+(** extractKV ranges over runes as well *)
+Definition extract_kv (s : string) : option (string * list (string * string)) :=
+  extract_kv_bytes (sanitize s).
 
 (** strings.Replace(v, "=", "\\=", -1) then "]" -> "\\]" *)
 Fixpoint escape_char (x : ascii) (s : string) : string :=
@@ -190,7 +210,7 @@ Fixpoint string_slice (parts : list string) : option (list string) :=
 
 (** ygot.StringToPath(s, StructuredPath, StringSlicePath): both forms or an error *)
 Definition string_to_path (s : string) : outcome gpath :=
-  let parts := path_string_to_elements s in
+  let parts := go_path_string_to_elements s in
   match structured parts, string_slice parts with
   | Some es, Some el => Ok (GPath "" "" es el)
   | _, _ => Err err_query
@@ -207,7 +227,7 @@ Definition query_index (q : list string) : outcome (list string) :=
   | Panic w => Panic w
   end.
 
-(** plain element: non-empty, none of backslash [ ] space *)
+(** plain element: non-empty valid UTF-8, none of backslash [ ] space *)
 Definition plain_char (c : ascii) : bool :=
   negb (Ascii.eqb c ch_bslash || Ascii.eqb c ch_lbr || Ascii.eqb c ch_rbr || Ascii.eqb c ch_space).
 
@@ -217,7 +237,7 @@ Fixpoint all_chars (f : ascii -> bool) (s : string) : bool :=
   | String c r => f c && all_chars f r
   end.
 
-Definition plain (e : string) : bool := negb (str_empty e) && all_chars plain_char e.
+Definition plain (e : string) : bool := negb (str_empty e) && all_chars plain_char e && utf8_valid e.
 
 (** the last element of the query must not end in '/': PathStringToElements
     drops the last part whenever the STRING ends in '/', escaped or not
